@@ -68,28 +68,45 @@ fn main() {
                 }
             }
             let mut rep = Report::new(&id, tier, seed, cell);
-            match id.as_str() {
-                "C01" => c01::run(&mut rep),
-                "C02" => c02::run(&mut rep),
-                "C03" => c03::run(&mut rep),
-                "C04" => c04::run(&mut rep),
-                "C05" => c05::run(&mut rep),
-                "C06" => c06::run(&mut rep),
-                "C07" => c07::run(&mut rep),
-                "C08" => c08::run(&mut rep),
-                "C09" => c09::run(&mut rep),
-                "C10" => c10::run(&mut rep),
-                "C11" => c11::run(&mut rep),
-                "C12" => c12::run(&mut rep),
-                "C13" => c13::run(&mut rep),
-                "C14" => c14::run(&mut rep),
-                "C15" => c15::run(&mut rep),
-                "C16" => c16::run(&mut rep),
-                "C17" => c17::run(&mut rep),
-                "C18" => c18::run(&mut rep),
-                "C19" => c19::run(&mut rep),
-                "C20" => c20::run(&mut rep),
-                _ => usage(),
+            // safety net: a panic of the code under test that escapes the per-case guards of a monitor (or breaks an
+            // assumption of the harness, e.g. a sketch of the wrong length) is a deviation from the behaviour observed on
+            // the unchanged tree, where no monitor panics: reported as a violation with its own key, never as a crash
+            let outcome = std::panic::catch_unwind(std::panic::AssertUnwindSafe(|| {
+                match id.as_str() {
+                    "C01" => c01::run(&mut rep),
+                    "C02" => c02::run(&mut rep),
+                    "C03" => c03::run(&mut rep),
+                    "C04" => c04::run(&mut rep),
+                    "C05" => c05::run(&mut rep),
+                    "C06" => c06::run(&mut rep),
+                    "C07" => c07::run(&mut rep),
+                    "C08" => c08::run(&mut rep),
+                    "C09" => c09::run(&mut rep),
+                    "C10" => c10::run(&mut rep),
+                    "C11" => c11::run(&mut rep),
+                    "C12" => c12::run(&mut rep),
+                    "C13" => c13::run(&mut rep),
+                    "C14" => c14::run(&mut rep),
+                    "C15" => c15::run(&mut rep),
+                    "C16" => c16::run(&mut rep),
+                    "C17" => c17::run(&mut rep),
+                    "C18" => c18::run(&mut rep),
+                    "C19" => c19::run(&mut rep),
+                    "C20" => c20::run(&mut rep),
+                    _ => usage(),
+                }
+            }));
+            if let Err(e) = outcome {
+                let msg = if let Some(s) = e.downcast_ref::<&str>() {
+                    s.to_string()
+                } else if let Some(s) = e.downcast_ref::<String>() {
+                    s.clone()
+                } else {
+                    "panic".to_string()
+                };
+                let key = format!("{}/panic", id);
+                rep.evaluations += 1;
+                rep.violation(&key, "monitor", format!("the code under test panicked outside a guarded call of the monitor: {}", msg), serde_json::json!({"panic": msg}));
             }
             let code = rep.finish(&verif_dir);
             std::process::exit(code);
